@@ -1009,13 +1009,21 @@ func (agg *aggregate) Process(ctx context.Context, man gdbi.Manager, in gdbi.InP
 					}
 				}
 
-				count := 0
+				// the `size` most frequent terms (all of them when no size is given)
+				type termCount struct {
+					term  interface{}
+					count int
+				}
+				terms := make([]termCount, 0, len(fieldTermCounts))
 				for term, tcount := range fieldTermCounts {
-					if size <= 0 || count < int(size) {
-						//sTerm, _ := structpb.NewValue(term)
-						//fmt.Printf("Term: %s %s %d\n", a.Name, sTerm, tcount)
-						out <- &gdbi.BaseTraveler{Aggregation: &gdbi.Aggregate{Name: a.Name, Key: term, Value: float64(tcount)}}
+					terms = append(terms, termCount{term, tcount})
+				}
+				sort.SliceStable(terms, func(i, j int) bool { return terms[i].count > terms[j].count })
+				for n, tc := range terms {
+					if size > 0 && n >= int(size) {
+						break
 					}
+					out <- &gdbi.BaseTraveler{Aggregation: &gdbi.Aggregate{Name: a.Name, Key: tc.term, Value: float64(tc.count)}}
 				}
 				return outErr
 			})
